@@ -46,7 +46,7 @@ func (e *Engine) doCall(st *State, fr *Frame, call ssa.CallInstruction, val ssa.
 		// a few standard iterator constructors are replaced by in-package models of the same
 		// behaviour (see load.modelsSource), which the engine then inlines like any other code
 		if f := ci.Static; f != nil && f.Pkg != e.Cfg.Pkg {
-			if mname, ok := map[string]string{"slices.All": "flytsaModelSlicesAll", "slices.Values": "flytsaModelSlicesValues", "maps.All": "flytsaModelMapsAll", "maps.Insert": "flytsaModelMapsInsert", "(*sync.Once).Do": "flytsaModelOnceDo"}[CalleeName(f)]; ok {
+			if mname, ok := map[string]string{"slices.All": "flytsaModelSlicesAll", "slices.Values": "flytsaModelSlicesValues", "maps.All": "flytsaModelMapsAll", "maps.Insert": "flytsaModelMapsInsert", "(*sync.Once).Do": "flytsaModelOnceDo", "(time.Duration).Nanoseconds": "flytsaModelIdentity"}[CalleeName(f)]; ok {
 				if mf := e.Cfg.Pkg.Func(mname); mf != nil {
 					ci.Static = mf
 					ci.FnTerm = Func(mf.String(), mf)
